@@ -661,7 +661,9 @@ func exchangeFromHTTP(status int, h http.Header, body []byte) Exchange {
 		}
 	case len(trim) == 0:
 		ex.Kind = "empty"
-	case strings.Contains(ct, "json"):
+	case strings.Contains(ct, "json"), trim[0] == '{' && json.Valid(trim):
+		// a JSON object is a message whatever the Content-Type says (a handler that sets the type after it has committed
+		// the header sends the right body under a sniffed type)
 		ex.Kind = "json"
 		ex.Frames = append(ex.Frames, trim)
 	default:
